@@ -555,6 +555,14 @@ struct Exec {
                 std::vector<std::pair<size_t, unsigned>> cands;
                 for (size_t by = 0; by < need; by++) for (unsigned bit = 0; bit < 8; bit++) if (flippable(op, by, bit)) cands.push_back({by, bit});
                 auto pick = cands[plan.flip_bit % cands.size()];
+                if (op.kind == K_POINT_ED && pick.first == 31 && pick.second == 7 && a.out.size() == 32) {
+                    // the top bit only chooses the sign of x; when the served bytes (possibly a neighbour's degenerate
+                    // segment, after a stream shift) map to a point with x = 0 it cannot matter: use another bit then
+                    bool x_zero = true;
+                    for (size_t q = 1; q < 31; q++) if (a.out[q] != (a.out[0] == 0x01 ? 0x00 : 0xff)) x_zero = false;
+                    if (!((a.out[0] == 0x01 && a.out[31] == 0x00) || (a.out[0] == 0xec && a.out[31] == 0x7f))) x_zero = false;
+                    if (x_zero) { pick = {17, 3}; res.count("probe.flip_avoided_degenerate_sign_bit"); }
+                }
                 SeqResult fl = run_seq(mix64(plan.content_seed, 1), 0xAA, (long) (sec0 + pick.first), pick.second);
                 g_kfaults_fired.clear();
                 any_adversarial = true;
@@ -564,6 +572,7 @@ struct Exec {
                 // a flip can turn an accepted draw into a rejected one (scalars): then the op moved on to later
                 // stream bytes and nothing can be said about its result; only compare when consumption is unchanged
                 bool same_consumption = fl.ops[fi].start == a.start && fl.ops[fi].end == a.end;
+                if (getenv("C18_DEBUG")) fprintf(stderr, "DBG flip op %zu sec0 %zu pick (%zu,%u) base[%zu,%zu) out %s | flipped[%zu,%zu) out %s\n", fi, sec0, pick.first, pick.second, a.start, a.end, hexbytes(a.out.data(), std::min<size_t>(a.out.size(), 32)).c_str(), fl.ops[fi].start, fl.ops[fi].end, hexbytes(fl.ops[fi].out.data(), std::min<size_t>(fl.ops[fi].out.size(), 32)).c_str());
                 if (!same_consumption) res.count("probe.flip_changed_consumption");
                 if (!res.violated && same_consumption && !fl.ops[fi].terminated && fl.ops[fi].out == a.out)
                     res.fail("secret-ignores-source-bytes", kind_name[op.kind], std::string(kind_name[op.kind]) + ": flipping bit " + std::to_string(pick.second) + " of byte " + std::to_string(pick.first) + " of the " + std::to_string(need) + " bytes served for the secret did not change the result", (int) fi);
